@@ -134,6 +134,8 @@ pub struct TlsVal {
     /// loom thread id of the initialising thread
     owner_id: i64,
     counter: std::cell::Cell<i64>,
+    /// thread-local 1 owns a loom object whose destructor needs the execution
+    _owned: Option<loom::sync::Arc<u8>>,
 }
 
 /// loom id of the running loom thread, or -1 when no execution is accessible (cleanup after a failure)
@@ -150,7 +152,7 @@ impl TlsVal {
         if let Some(s) = current() {
             s.note(NOTE_TLS_INIT, key as i64, owner as i64);
         }
-        TlsVal { key, owner, owner_id: cur_loom_id(), counter: std::cell::Cell::new(0) }
+        TlsVal { key, owner, owner_id: cur_loom_id(), counter: std::cell::Cell::new(0), _owned: if key == 1 { Some(loom::sync::Arc::new(1)) } else { None } }
     }
 }
 
@@ -203,6 +205,8 @@ loom::thread_local! {
 pub struct LazyVal {
     key: usize,
     cell: loom::cell::UnsafeCell<usize>,
+    /// lazy static 1 owns a loom object whose destructor needs the execution
+    _owned: Option<loom::sync::Arc<u8>>,
 }
 
 impl LazyVal {
@@ -219,7 +223,7 @@ impl LazyVal {
         let cell = loom::cell::UnsafeCell::new(0usize);
         // the initialiser writes the cell: every later reader must be ordered after this
         cell.with_mut(|p| unsafe { *p = 7 + key });
-        LazyVal { key, cell }
+        LazyVal { key, cell, _owned: if key == 1 { Some(loom::sync::Arc::new(1)) } else { None } }
     }
 }
 
